@@ -27,6 +27,8 @@ var pureFunSpecs = []pfSpec{
 		reads: []string{"GetPairsVault", "GetPair", "GetAsset", "GetESMStatus", "GetSnapshotOfPrices", "CalcAssetPrice"},
 		errs: map[string]int{"types.ErrorExtendedPairVaultDoesNotExists": 3, "types.ErrorPairDoesNotExist": 3, "types.ErrorAssetDoesNotExist": 3,
 			"types.ErrorPriceDoesNotExist": 10, "types.ErrorInvalidAmountIn": 6, "types.ErrorInvalidAmountOut": 6}},
+	{pkg: "x/vault/keeper", recv: "Keeper", fn: "VerifyCollaterlizationRatio", coq: "gen_vault_VerifyCollaterlizationRatio",
+		errs: map[string]int{"types.ErrorInvalidCollateralizationRatio": 9}},
 	{pkg: "x/market/keeper", recv: "Keeper", fn: "CalcAssetPrice", coq: "gen_market_CalcAssetPrice",
 		reads: []string{"GetAsset", "GetTwa"},
 		errs: map[string]int{"assetTypes.ErrorAssetDoesNotExist": 3, "types.ErrorPriceNotActive": 10}},
